@@ -589,6 +589,7 @@ pub fn run(tier: &str) -> i32 {
     let n_plain: usize = if quick { 1500 } else { 60_000 };
     let n_fresh: usize = if quick { 250 } else { 6_000 };
     let thorough = !quick;
+    let mut traces: std::collections::BTreeSet<u64> = Default::default();
     for (batch, n, fresh) in [("inproc", n_plain, false), ("fresh", n_fresh, true)] {
         let cases = par_map(n, workers(), move |i| fresh_thread(|| gen_case(run_seed(vs, "C15", batch, i as u64), thorough, fresh)));
         for c in cases {
@@ -596,6 +597,8 @@ pub fn run(tier: &str) -> i32 {
             ev.steps += c.res.next_calls;
             logfold.add(c.res.log);
             let nf: u64 = c.res.faults.values().sum();
+            ev.probe("global_states_seen_sum_over_runs", c.res.states as u64);
+            traces.insert(c.res.trace_hash);
             ev.merge_counts(&c.res.faults, &c.res.probes);
             if c.res.max_live >= 2 || nf > 0 {
                 let mut f = Fold::new();
@@ -628,6 +631,8 @@ pub fn run(tier: &str) -> i32 {
             }
         }
     }
+
+    ev.probe("distinct_schedule_traces", traces.len() as u64);
 
     // native concurrent supplement
     let n_native = if quick { 60 } else { 1500 };
